@@ -280,6 +280,68 @@ func errPropFunc(p *prog.Prog, info *types.Info, fname string, outer *ast.FuncTy
 		})
 	}
 	visit(body)
+	// pass 4: a failure test narrowed by a further condition (`err != nil && !errors.Is(err, X)`,
+	// `err != nil && retryable(err)`): failures outside the narrowed set fall through the branch.
+	// They count as ignored unless a later statement of the same block looks at the error again
+	// (tests it, returns it or passes it on).
+	ast.Inspect(body, func(nd ast.Node) bool {
+		blk, ok := nd.(*ast.BlockStmt)
+		if !ok {
+			return true
+		}
+		for i, st := range blk.List {
+			is, ok := st.(*ast.IfStmt)
+			if !ok {
+				continue
+			}
+			b, ok := ast.Unparen(is.Cond).(*ast.BinaryExpr)
+			if !ok || b.Op != token.LAND {
+				continue
+			}
+			var obj types.Object
+			var other ast.Expr
+			for _, pair := range [][2]ast.Expr{{b.X, b.Y}, {b.Y, b.X}} {
+				if o, positive := errTestOf(info, pair[0]); o != nil && positive && sentinelOf(pair[0]) == "" {
+					obj, other = o, pair[1]
+				}
+			}
+			if obj == nil {
+				continue
+			}
+			if _, tracked := refs[obj]; !tracked {
+				continue
+			}
+			later := false
+			for _, st2 := range blk.List[i+1:] {
+				ast.Inspect(st2, func(m ast.Node) bool {
+					if id, ok := m.(*ast.Ident); ok && info.Uses[id] == obj {
+						later = true
+					}
+					return !later
+				})
+			}
+			// an else branch that deals with the remaining failures
+			if is.Else != nil {
+				ast.Inspect(is.Else, func(m ast.Node) bool {
+					if id, ok := m.(*ast.Ident); ok && info.Uses[id] == obj {
+						later = true
+					}
+					return !later
+				})
+			}
+			if later {
+				continue
+			}
+			callee := "?"
+			for _, d := range refs[obj] {
+				if d.isDef && d.call != nil && d.pos < is.Body.Pos() {
+					callee = calleeName(p, info, d.call)
+				}
+			}
+			site("ignored", callee+":unless("+types.ExprString(other)+")", is.Pos(), "the failure branch is taken only for some errors; the others fall through it and are never looked at again")
+		}
+		return true
+	})
 	return
 }
 
